@@ -10,29 +10,9 @@ import (
 // (FROM, JOIN, WHERE column qualifiers) in a SELECT, UPDATE, or DELETE statement.
 func ReplaceTable(oldName, newName string) Rule {
 	return RuleFunc(func(stmt ast.Statement) error {
-		switch s := stmt.(type) {
-		case *ast.SelectStatement:
-			replaceTableInFrom(s.From, oldName, newName)
-			replaceTableInJoins(s.Joins, oldName, newName)
-			for i, col := range s.Columns {
-				s.Columns[i] = replaceTableInExpr(col, oldName, newName)
-			}
-			s.Where = replaceTableInExpr(s.Where, oldName, newName)
-			for i, ob := range s.OrderBy {
-				s.OrderBy[i].Expression = replaceTableInExpr(ob.Expression, oldName, newName)
-			}
-			return nil
-		case *ast.UpdateStatement:
-			if strings.EqualFold(s.TableName, oldName) {
-				s.TableName = newName
-			}
-			s.Where = replaceTableInExpr(s.Where, oldName, newName)
-			return nil
-		case *ast.DeleteStatement:
-			if strings.EqualFold(s.TableName, oldName) {
-				s.TableName = newName
-			}
-			s.Where = replaceTableInExpr(s.Where, oldName, newName)
+		switch stmt.(type) {
+		case *ast.SelectStatement, *ast.UpdateStatement, *ast.DeleteStatement:
+			replaceTableEverywhere(stmt, oldName, newName)
 			return nil
 		default:
 			return &ErrUnsupportedStatement{Transform: "ReplaceTable", Got: stmtTypeName(stmt)}
@@ -85,23 +65,54 @@ func QualifyColumns(tableName string) Rule {
 	})
 }
 
+// replaceTableEverywhere renames the table in every table position and every
+// column qualifier below root, wherever the query that names it sits: the tree
+// walker finds the nested queries (sub-queries in any clause, derived tables,
+// CTE bodies, operands of set operations), so no clause has to be listed here.
+func replaceTableEverywhere(root ast.Node, old, new string) {
+	ast.Inspect(root, func(n ast.Node) bool {
+		switch v := n.(type) {
+		case *ast.SelectStatement:
+			if v != nil {
+				replaceTableInFrom(v.From, old, new)
+				for i := range v.Joins {
+					if strings.EqualFold(v.Joins[i].Right.Name, old) {
+						v.Joins[i].Right.Name = new
+					}
+					if strings.EqualFold(v.Joins[i].Left.Name, old) {
+						v.Joins[i].Left.Name = new
+					}
+				}
+				if strings.EqualFold(v.TableName, old) {
+					v.TableName = new
+				}
+			}
+		case *ast.UpdateStatement:
+			if v != nil && strings.EqualFold(v.TableName, old) {
+				v.TableName = new
+			}
+		case *ast.DeleteStatement:
+			if v != nil && strings.EqualFold(v.TableName, old) {
+				v.TableName = new
+			}
+		case *ast.InsertStatement:
+			if v != nil && strings.EqualFold(v.TableName, old) {
+				v.TableName = new
+			}
+		case *ast.Identifier:
+			if v != nil && strings.EqualFold(v.Table, old) {
+				v.Table = new
+			}
+		}
+		return true
+	})
+}
+
 func replaceTableInFrom(from []ast.TableReference, old, new string) {
 	for i := range from {
 		if strings.EqualFold(from[i].Name, old) {
 			from[i].Name = new
 		}
-	}
-}
-
-func replaceTableInJoins(joins []ast.JoinClause, old, new string) {
-	for i := range joins {
-		if strings.EqualFold(joins[i].Right.Name, old) {
-			joins[i].Right.Name = new
-		}
-		if strings.EqualFold(joins[i].Left.Name, old) {
-			joins[i].Left.Name = new
-		}
-		joins[i].Condition = replaceTableInExpr(joins[i].Condition, old, new)
 	}
 }
 
@@ -220,65 +231,6 @@ func walkStmtExprs(stmt ast.Statement, fn func(ast.Expression) ast.Expression) {
 	for i := range sel.Joins {
 		sel.Joins[i].Condition = walkExpr(sel.Joins[i].Condition, fn)
 	}
-}
-
-// replaceTableInStmt recursively replaces table names in all parts of a statement,
-// including FROM, JOINs, and all expressions (with subquery recursion).
-func replaceTableInStmt(stmt ast.Statement, old, new string) {
-	sel, ok := stmt.(*ast.SelectStatement)
-	if !ok || sel == nil {
-		return
-	}
-	replaceTableInFrom(sel.From, old, new)
-	replaceTableInJoins(sel.Joins, old, new)
-	for i := range sel.Columns {
-		sel.Columns[i] = replaceTableInExpr(sel.Columns[i], old, new)
-	}
-	sel.Where = replaceTableInExpr(sel.Where, old, new)
-	for i := range sel.OrderBy {
-		sel.OrderBy[i].Expression = replaceTableInExpr(sel.OrderBy[i].Expression, old, new)
-	}
-}
-
-func replaceTableInExpr(expr ast.Expression, old, new string) ast.Expression {
-	if expr == nil {
-		return nil
-	}
-	// For subquery-containing expressions, recurse into the full statement
-	// so that FROM/JOIN table names are also replaced.
-	switch e := expr.(type) {
-	case *ast.SubqueryExpression:
-		replaceTableInStmt(e.Subquery, old, new)
-		return e
-	case *ast.ExistsExpression:
-		replaceTableInStmt(e.Subquery, old, new)
-		return e
-	case *ast.InExpression:
-		e.Expr = replaceTableInExpr(e.Expr, old, new)
-		for i := range e.List {
-			e.List[i] = replaceTableInExpr(e.List[i], old, new)
-		}
-		if e.Subquery != nil {
-			replaceTableInStmt(e.Subquery, old, new)
-		}
-		return e
-	case *ast.AnyExpression:
-		e.Expr = replaceTableInExpr(e.Expr, old, new)
-		replaceTableInStmt(e.Subquery, old, new)
-		return e
-	case *ast.AllExpression:
-		e.Expr = replaceTableInExpr(e.Expr, old, new)
-		replaceTableInStmt(e.Subquery, old, new)
-		return e
-	}
-	return walkExpr(expr, func(e ast.Expression) ast.Expression {
-		if id, ok := e.(*ast.Identifier); ok {
-			if strings.EqualFold(id.Table, old) {
-				id.Table = new
-			}
-		}
-		return e
-	})
 }
 
 func qualifyExpr(expr ast.Expression, table string) ast.Expression {
